@@ -364,15 +364,17 @@ def eval3(test, atom):
         return bool(test.value)
     return None
 
-def reach_with_flags(g, start, avoid=(), atom=None, follow_exc=False, facts=None):
+def reach_with_flags(g, start, avoid=(), atom=None, follow_exc=False, facts=None, taint=None):
     """node ids reachable from `start` without entering `avoid`, path-sensitively for boolean-like locals: along each path the analysis
     remembers, for every local name whose last assignment was None / True / False / an exception object bound by a handler, that value, and
     at a test node follows only the outcomes consistent with eval3(test, atom + those facts).  `atom` decides further sub-expressions
     (NotImplemented: not mine).  Exact for the flag idiom (`failed = None ... except E as e: failed = e ... if failed is not None`);
-    anything else about a name forgets it."""
+    anything else about a name forgets it.
+    With `taint` (a predicate on test expressions) the result is a pair (reachable, surely reachable): a path counts as sure when no test it
+    passes is both undecided and tainted -- i.e. every undecided test on it is one whose two outcomes are both possible in the assumed world."""
     avoid = set(avoid)
     if start in avoid:
-        return set()
+        return set() if taint is None else (set(), set())
     def effect(n, f):
         f = dict(f)
         a = n.ast
@@ -423,18 +425,23 @@ def reach_with_flags(g, start, avoid=(), atom=None, follow_exc=False, facts=None
         return eval3(test, at)
     seen = set()
     out = set()
-    stack = [(start, tuple(sorted((facts or {}).items(), key=repr)))]
+    sure = set()
+    stack = [(start, tuple(sorted((facts or {}).items(), key=repr)), False)]
     while stack:
-        u, fk = stack.pop()
-        if (u, fk) in seen:
+        u, fk, dirty = stack.pop()
+        if (u, fk, dirty) in seen or (dirty and (u, fk, False) in seen):
             continue
-        seen.add((u, fk))
+        seen.add((u, fk, dirty))
         out.add(u)
-        if len(seen) > 20000:
+        if not dirty:
+            sure.add(u)
+        if len(seen) > 40000:
             break
         n = g.nodes[u]
         f = dict(fk)
-        tv = decide(n.ast.test, f) if n.kind == 'test' and hasattr(n.ast, 'test') else None
+        is_test = n.kind == 'test' and hasattr(n.ast, 'test')
+        tv = decide(n.ast.test, f) if is_test else None
+        d2 = dirty or bool(taint is not None and is_test and tv is None and taint(n.ast.test))
         f2 = effect(n, f)
         k2 = tuple(sorted(f2.items(), key=repr))
         for v, l in g.succ[u]:
@@ -444,8 +451,8 @@ def reach_with_flags(g, start, avoid=(), atom=None, follow_exc=False, facts=None
             if tv is False and l == 'true': continue
             if v in avoid:
                 continue
-            stack.append((v, k2 if l != 'exc' else fk))
-    return out
+            stack.append((v, k2 if l != 'exc' else fk, d2 if l in ('true', 'false') else dirty))
+    return out if taint is None else (out, sure)
 
 def implied_edges(g, atom_false_world):
     """edges (test node id, label) that can only be taken when the `world` assumed by atom_false_world does NOT hold:
